@@ -1,6 +1,6 @@
 """C04 — signing digest deterministic, injective, same layout in Go / Solidity / Ralph."""
 import core, re
-from vaa_common import HDR, gvaa, monitor_rows
+from vaa_common import HDR, HDR_K, gvaa, monitor_rows
 
 def run(ctx):
     core.run_extract(ctx, ["vaa_consts", "sol_parsevm", "ral_parsevaa"])
@@ -12,28 +12,73 @@ def run(ctx):
     if rc != 0 or not rows:
         ctx.problem("correspondence", "go harness C04", out[-1500:])
         return
-    ctx.evaluations = len(rows)
-    ctx.distinct = len({r["body"] for r in rows if len(r["payload"]) > 0})
+    allrows = rows
+    krows = [r for r in allrows if r.get("k") == "kk"]       # Keccak-256 alone: input / crypto.Keccak256(input)
+    rows = [r for r in allrows if r.get("k") == "c04"]       # VAAs: fields / SerializeBody / Marshal / SigningMsg
+    if not rows or not krows:
+        ctx.problem("correspondence", "go harness C04", "no VAA rows or no keccak rows in the trace")
+        return
+    ctx.evaluations = len(rows) + len(krows)
+    ctx.distinct = len({r["body"] for r in rows if len(r["payload"]) > 0}) + len({r["in"] for r in krows if r["n"] > 0})
     ctx.rule = ("random VAAs from VERIF_SEED with boundary field values, timestamps before 1970 / beyond 2106 / with sub-second parts, "
-                "payload lengths incl. 999/1000/1001/4096, 0..255 signatures; distinct by signing body, non-trivial = non-empty payload")
+                "payload lengths incl. 999/1000/1001/4096, 0..255 signatures; distinct by signing body, non-trivial = non-empty payload; "
+                "plus Keccak-256 inputs (known answers, lengths around 8/136/272/408/1088/4096, padding look-alikes, random up to 4 KiB), distinct by input, non-trivial = non-empty")
     ctx.cov["payload_len_hist"] = hist([len(r["payload"]) // 2 for r in rows], [0, 1, 100, 1000, 1001, 5000])
     ctx.cov["nsig_hist"] = hist([len(r["sigs"]) for r in rows], [0, 1, 5, 20, 255])
-    ctx.samples = [{k: (v if len(str(v)) < 90 else str(v)[:80] + "...") for k, v in r.items() if k != "mon"} for r in rows[:2]]
-    monitor_rows(ctx, rows, lambda r, m: "mon:" + m, lambda r, m: {"vaa": {k: r[k] for k in r if k not in ("mon",)}, "monitor": m})
-    # model vs implementation: body and marshal computed by the Gallina model on the same field values
-    bad = core.run_cases(ctx, "cases_C04", rows, HDR, "vaa * Z * Z",
-                         lambda r: "(%s, %d, %d)" % (gvaa(r), core.hash_bytes(r["body"]), core.hash_bytes(r["marshal"])),
-                         "Definition ok (c : vaa * Z * Z) : bool := let '(v, b, m) := c in (hash_bytes (body v) =? b) && (hash_bytes (marshal v) =? m).",
-                         weight=lambda r: len(r["payload"]) // 2 + 66 * len(r["sigs"]))
+    ctx.cov["keccak_input_len_hist"] = hist([r["n"] for r in krows], [0, 135, 136, 137, 272, 1088, 4096])
+    kinds = {}
+    for r in krows:
+        kinds[r["kind"]] = kinds.get(r["kind"], 0) + 1
+    ctx.cov["keccak_rows_by_kind"] = kinds
+    ctx.samples = [{k: (v if len(str(v)) < 90 else str(v)[:80] + "...") for k, v in r.items() if k != "mon"} for r in rows[:2] + krows[:1]]
+    monitor_rows(ctx, allrows, lambda r, m: "mon:" + m,
+                 lambda r, m: ({"vaa": {k: r[k] for k in r if k not in ("mon",)}, "monitor": m} if r.get("k") == "c04" else {"keccak_input": r["in"], "go_output": r["out"], "monitor": m}))
+    # model vs implementation: body and marshal computed by the Gallina model on the same field values, and the digest computed by the
+    # Gallina Keccak-256 (lib/Keccak.v) INSIDE Coq: digest keccak256 v must be the bytes the real (*VAA).SigningMsg() returned
+    okdef = ("Definition ok (c : vaa * Z * Z * list byte) : bool := let '(v, b, m, d) := c in "
+             "(hash_bytes (body v) =? b) && (hash_bytes (marshal v) =? m) && bytes_eqb (digest keccak256 v) d.")
+    gcase = lambda r: "(%s, %d, %d, B %s)" % (gvaa(r), core.hash_bytes(r["body"]), core.hash_bytes(r["marshal"]), core.gbytes(r["digest"]))
+    bad = core.run_cases(ctx, "cases_C04", rows, HDR_K, "vaa * Z * Z * list byte", gcase, okdef,
+                         weight=lambda r: len(r["payload"]) // 2 + 66 * len(r["sigs"]) + 300)
     if bad is None:
         return
     nb = len(rows)
     for i in bad[:3]:
         r = rows[i]
-        ctx.problem("correspondence", "model body/marshal differs from SerializeBody/Marshal", "case %d" % i, concrete=False,
-                    replay={"vaa": {k: r[k] for k in r if k != "mon"}})
+        # which of the three comparisons failed (one small evaluation per reported case)
+        what = "model body/marshal/digest differs from SerializeBody/Marshal/SigningMsg"
+        okd, o = core.coq_eval(ctx, "cases_C04_diag", HDR_K + "Definition c := %s.\nDefinition D := Eval vm_compute in let '(v, b, m, d) := c in "
+                               "[hash_bytes (body v) =? b; hash_bytes (marshal v) =? m; bytes_eqb (digest keccak256 v) d; bytes_eqb (keccak256 (body v)) d].\nPrint D.\n" % gcase(r))
+        d = core.parse_print(o, "D") if okd else None
+        if d:
+            fl = re.findall(r'true|false', d)
+            if len(fl) == 4:
+                parts = []
+                if fl[0] == "false":
+                    parts.append("SerializeBody differs from the model body")
+                if fl[1] == "false":
+                    parts.append("Marshal differs from the model wire form")
+                if fl[2] == "false":
+                    parts.append("SigningMsg is not keccak256(keccak256(model body)) as computed by the Gallina Keccak-256"
+                                 + (" (it is the SINGLE hash keccak256(body))" if fl[3] == "true" else ""))
+                what = "; ".join(parts) or what
+        ctx.problem("correspondence", what, "case %d" % i, concrete=False, replay={"vaa": {k: r[k] for k in r if k != "mon"}})
     ctx.cov["traces_validated_against_impl"] = nb
     ctx.cov["mismatches"] = len(bad)
+    # Keccak-256 itself: the Gallina function against go-ethereum crypto.Keccak256 on every recorded input
+    kbad = core.run_cases(ctx, "cases_C04k", krows, HDR_K, "list byte * list byte", lambda r: "(B %s, B %s)" % (core.gbytes(r["in"]), core.gbytes(r["out"])),
+                          "Definition ok (c : list byte * list byte) : bool := bytes_eqb (keccak256 (fst c)) (snd c).",
+                          weight=lambda r: r["n"] + 200)
+    if kbad is None:
+        return
+    for i in kbad[:3]:
+        r = krows[i]
+        ctx.problem("correspondence", "Gallina keccak256 differs from crypto.Keccak256", "input of %d bytes (%s)" % (r["n"], r["kind"]), concrete=False,
+                    replay={"keccak_input": r["in"], "go_output": r["out"]})
+    ctx.cov["keccak_rows_validated_in_coq"] = len(krows)
+    ctx.cov["keccak_mismatches"] = len(kbad)
+    # the constants written into the Coq sources (Examples by vm_compute) are what the running Go code returns for the same inputs
+    kat_check(ctx, rows, krows)
     # a contract-side body offset that no longer depends on the signature count alone: look for the VAA shape on which it disagrees with Go
     st = ctx.cov.get("extractors", {}).get("ral_parsevaa")
     if isinstance(st, str) and "body slice starts at" in st:
@@ -76,8 +121,47 @@ def run(ctx):
                     seen.add(line)
                     ctx.problem("monitor", line, "observed on the real handleMessage, history %s (%s)" % (h["id"], h.get("shape")), concrete=True,
                                 replay=P.replay_obj(h, line), key="C04:digest-not-a-function-of-message-fields")
-    ctx.assumptions = ["Keccak-256 is an uninterpreted function in the theorems; the harness checks SigningMsg = keccak(keccak(model body)) with x/crypto/sha3 called directly",
+    ctx.assumptions = ["Keccak-256: the layout / independence / injectivity theorems hold for every function keccak; C04_digest_is_concrete and the C04_keccak_* theorems are about "
+                       "the executable Gallina Keccak-256 of lib/Keccak.v, which is compared INSIDE Coq with go-ethereum crypto.Keccak256 (rows kk) and, through digest keccak256 v, "
+                       "with the bytes (*VAA).SigningMsg() returns (every VAA row); that this function is collision resistant is NOT claimed (injectivity is stated for the signing body)",
                        "contract sources are read (extracted layouts), not executed"]
+
+
+def kat_check(ctx, rows, krows):
+    """Examples of coq/proofs/KeccakProofs.v and coq/props/C04.v carry expected values as literals; compare them with what Go returned in this run"""
+    import os
+    def lit(txt):
+        return "".join(re.findall(r'x([0-9a-f]{2})\b', txt))
+    n = 0
+    try:
+        kp = open(os.path.join(core.COQ, "proofs", "KeccakProofs.v")).read()
+        want = {}
+        for m in re.finditer(r'Example keccak256_kat_(\w+) : keccak256 [^=]*=\s*\[([^\]]*)\]', kp):
+            want[m.group(1)] = lit(m.group(2))
+        got = {}
+        for r in krows:
+            if r["kind"] == "kat:empty":
+                got["empty"] = r["out"]
+            elif r["kind"] == "kat:abc":
+                got["abc"] = r["out"]
+            elif r["kind"] == "kat:pat":
+                got[str(r["n"])] = r["out"]
+        for k in sorted(set(want) | set(got)):
+            n += 1
+            if want.get(k) != got.get(k):
+                ctx.problem("correspondence", "known-answer vector keccak256_kat_%s of KeccakProofs.v is not what crypto.Keccak256 returns" % k,
+                            "Coq literal %s, Go %s" % (want.get(k), got.get(k)), concrete=False, replay={"kat": k, "coq": want.get(k), "go": got.get(k)})
+        ps = open(os.path.join(core.COQ, "props", "C04.v")).read()
+        m = re.search(r'Example C04_example_digest : digest keccak256 ex_vaa =\s*\[([^\]]*)\]', ps)
+        ex = [r for r in rows if r.get("kind") == "ex_vaa"]
+        n += 1
+        if not m or not ex or lit(m.group(1)) != ex[0]["digest"]:
+            ctx.problem("correspondence", "C04_example_digest is not the digest SigningMsg returns for ex_vaa",
+                        "Coq literal %s, Go %s" % (lit(m.group(1)) if m else None, ex[0]["digest"] if ex else None), concrete=False,
+                        replay={"vaa": {k: ex[0][k] for k in ex[0] if k != "mon"}} if ex else {"missing": "ex_vaa row"})
+    except OSError as e:
+        ctx.problem("machinery", "known-answer comparison", repr(e))
+    ctx.cov["coq_literals_compared_with_go"] = n
 
 def hist(vals, edges):
     h = {}
